@@ -7,6 +7,7 @@ func init() {
 	vt.Register("syscalls", 0.08, genSysCase, checkSysCase)
 	vt.Register("natives", 0.15, genNatCase, checkNatCase)
 	vt.Register("chains", 1.0, genChainCase, checkChainCase)
+	vt.Register("tokens", 0.006, genTokCase, checkTokCase)
 	vt.Register("safe", 0.2, genSafeCase, checkSafeCase)
 	vt.Register("permissions", 1.0, genPermCase, checkPermCase)
 	vt.Register("permcalls", 0.5, genPermCallCase, checkPermCallCase)
